@@ -971,6 +971,72 @@ theorem written_sparse_tuple_stream_wf (ds : List GDelta) (p0 : Nat) (ps : List 
   rw [hcx, hcy] at hxy
   exact ⟨by simp [ptIterOf, e2], h2, hxy.1, hxy.2, sasc_nodup ps p0 hasc, by simp [hl], by simp [hl]⟩
 
+/-- `read_dense_deltas` over any sequence of valid runs covering exactly the remaining entries: it
+succeeds, returns the values in order and leaves the cursor behind the runs -/
+theorem read_dense_runs : ∀ (runs : List Run) (fuel cur count : Nat) (rest : List Nat),
+    (∀ r ∈ runs, ValidRun r) → cur + total runs = count → runs.length + 1 ≤ fuel →
+    readDense fuel cur count (runs.flatMap serializeRun ++ rest) = some (runs.flatMap (·.2), rest) := by
+  intro runs
+  induction runs with
+  | nil =>
+    intro fuel cur count rest _ hc hf
+    obtain ⟨f, rfl⟩ : ∃ f, fuel = f + 1 := ⟨fuel - 1, by omega⟩
+    have : ¬ cur < count := by simp [total] at hc; omega
+    simp [readDense, this]
+  | cons r rs ih =>
+    intro fuel cur count rest hv hc hf
+    obtain ⟨f, rfl⟩ : ∃ f, fuel = f + 1 := ⟨fuel - 1, by omega⟩
+    obtain ⟨h1, h2, hfit⟩ := hv r (by simp)
+    have ht : total (r :: rs) = r.2.length + total rs := by simp [total]
+    rw [ht] at hc
+    have hlt : cur < count := by omega
+    have hgt : ¬ (cur + r.2.length > count) := by omega
+    simp only [List.flatMap_cons, List.append_assoc, serializeRun, List.cons_append, readDense, hlt,
+      if_true, flag_count _ _ h1 h2, flag_type _ _ h1 h2, hgt, if_false]
+    rw [readArray_vals r.1 r.2 _ hfit]
+    simp only []
+    rw [ih f (cur + r.2.length) count rest (fun x hx => hv x (by simp [hx])) (by omega)
+      (by simp at hf; omega)]
+
+/-- **missing links 1 + 2 at the level of one written ALL-POINTS tuple**: the delta bytes the writer
+emits (`encodeDeltas` of all x deltas, then of all y deltas) satisfy the stream conjuncts of `DenseWF`
+— both `read_dense_deltas` passes over `ds.length` entries succeed — and the values read are EXACTLY
+the input deltas. -/
+theorem written_dense_tuple_stream_wf (ds : List GDelta) (hd : ∀ d ∈ ds, inI32 d.1 ∧ inI32 d.2.1)
+    (rest : List Nat) :
+    readDense (ds.length + 1) 0 ds.length
+        (encodeDeltas (ds.map (·.1)) ++ (encodeDeltas (ds.map (·.2.1)) ++ rest))
+      = some (ds.map (·.1), encodeDeltas (ds.map (·.2.1)) ++ rest) ∧
+    readDense (ds.length + 1) 0 ds.length (encodeDeltas (ds.map (·.2.1)) ++ rest)
+      = some (ds.map (·.2.1), rest) := by
+  have hx : ∀ v ∈ ds.map (·.1), inI32 v := by
+    intro v hv; obtain ⟨d, hd', rfl⟩ := List.mem_map.mp hv; exact (hd d hd').1
+  have hy : ∀ v ∈ ds.map (·.2.1), inI32 v := by
+    intro v hv; obtain ⟨d, hd', rfl⟩ := List.mem_map.mp hv; exact (hd d hd').2
+  obtain ⟨hvx, hcx⟩ := runsOf_props _ (ds.map (·.1)) (Nat.le_refl _) hx
+  obtain ⟨hvy, hcy⟩ := runsOf_props _ (ds.map (·.2.1)) (Nat.le_refl _) hy
+  have lenle : ∀ rs : List Run, (∀ r ∈ rs, ValidRun r) → rs.length ≤ total rs := by
+    intro rs
+    induction rs with
+    | nil => intro _; simp
+    | cons r rs ih =>
+      intro h
+      have := ih (fun x hx' => h x (by simp [hx']))
+      have h1 := (h r (by simp)).1
+      simp [total] at this ⊢
+      omega
+  have tx : total (runsOf (ds.map (·.1)).length (ds.map (·.1))) = ds.length := by
+    unfold total; rw [hcx]; simp
+  have ty : total (runsOf (ds.map (·.2.1)).length (ds.map (·.2.1))) = ds.length := by
+    unfold total; rw [hcy]; simp
+  have a := read_dense_runs _ (ds.length + 1) 0 ds.length (encodeDeltas (ds.map (·.2.1)) ++ rest) hvx
+    (by rw [tx]; simp) (by have := lenle _ hvx; omega)
+  have b := read_dense_runs _ (ds.length + 1) 0 ds.length rest hvy
+    (by rw [ty]; simp) (by have := lenle _ hvy; omega)
+  rw [hcx] at a
+  rw [hcy] at b
+  exact ⟨a, b⟩
+
 /- FULL STATEMENT `written_then_applied_within_tolerance`: for every input to `Gvar::new` (tuples whose
 deltas went through `iup_delta_optimize` at tolerance τ), skrifa's output coordinate computed from the
 WRITTEN bytes is within `1/2 + Σ_t ((den_t − 1)/131072 + (s_t/65536)·τ)` of
